@@ -75,10 +75,11 @@ type v18EConn struct {
 	cuts    []int
 	host    string
 	stream  []byte
+	frame   string // HTTP CONNECT only: extra framing headers; the bytes behind the head are tunnel data regardless
 }
 
 func (e *v18EConn) String() string {
-	return fmt.Sprintf("{%s right=%v host=%s stream=%d bytes payload=%d cuts=%v}", e.proto, e.right, e.host, len(e.stream), len(e.payload), e.cuts)
+	return fmt.Sprintf("{%s right=%v host=%s stream=%d bytes payload=%d cuts=%v frame=%q}", e.proto, e.right, e.host, len(e.stream), len(e.payload), e.cuts, e.frame)
 }
 
 func TestVerifC18_SharedPortE2E(t *testing.T) {
@@ -109,7 +110,16 @@ func TestVerifC18_SharedPortE2E(t *testing.T) {
 				b = append(b, 0x01, 0xbb)
 				e.stream = append(b, e.payload...)
 			} else {
-				h := fmt.Sprintf("CONNECT %s:443 HTTP/1.1\r\nHost: %s:443\r\nProxy-Authorization: Basic %s\r\n\r\n", e.host, e.host, base64.StdEncoding.EncodeToString([]byte(user+":"+p)))
+				switch rapid.IntRange(0, 5).Draw(rt, "frame") {
+				case 0:
+					e.frame = fmt.Sprintf("Content-Length: %d\r\n", len(e.payload))
+				case 1:
+					e.frame = fmt.Sprintf("Content-Length: %d\r\n", (len(e.payload)+1)/2)
+				case 2:
+					e.frame = "Transfer-Encoding: chunked\r\n"
+					e.payload = append([]byte("3\r\nabc\r\n0\r\n\r\n"), e.payload...) // looks like a chunked body; it is tunnel data
+				}
+				h := fmt.Sprintf("CONNECT %s:443 HTTP/1.1\r\nHost: %s:443\r\n%sProxy-Authorization: Basic %s\r\n\r\n", e.host, e.host, e.frame, base64.StdEncoding.EncodeToString([]byte(user+":"+p)))
 				e.stream = append([]byte(h), e.payload...)
 			}
 			switch rapid.IntRange(0, 3).Draw(rt, "chunking") {
@@ -121,8 +131,11 @@ func TestVerifC18_SharedPortE2E(t *testing.T) {
 				e.cuts = rapid.SliceOfN(rapid.IntRange(1, len(e.stream)-1), 1, 4).Draw(rt, "cuts")
 			}
 			conns = append(conns, e)
-			fmt.Fprintf(&fp, "%s/%v/%d/%v|", e.proto, e.right, len(e.payload), e.cuts)
+			fmt.Fprintf(&fp, "%s/%v/%d/%v/%s|", e.proto, e.right, len(e.payload), e.cuts, e.frame)
 			classes = append(classes, e.proto, fmt.Sprintf("right:%v", e.right))
+			if e.frame != "" {
+				classes = append(classes, "connect-framing-headers")
+			}
 		}
 		concurrent := rapid.Bool().Draw(rt, "concurrent")
 		st.Case(true, fp.String(), classes, func() string { return fmt.Sprint(conns) })
@@ -182,9 +195,23 @@ func TestVerifC18_SharedPortE2E(t *testing.T) {
 			}
 			if e.right {
 				var ups []*v18EUp
-				if !v18WaitUntil(v18Patience, func() bool { ups = hy.forHost(e.host); return len(ups) > 0 }) {
+				closedByServer := func() bool {
 					select {
 					case <-rdDone:
+						return true
+					default:
+						return false
+					}
+				}
+				if !v18WaitUntil(v18Patience, func() bool { ups = hy.forHost(e.host); return len(ups) > 0 || closedByServer() }) {
+					vInconclusive("C18 e2e: no upstream for an authorised connection")
+				}
+				if ups = hy.forHost(e.host); len(ups) == 0 {
+					select {
+					case <-rdDone:
+						if e.frame != "" {
+							return // refused before dialling: nothing to assert about forwarding
+						}
 						fail("conn%d %s: authorised CONNECT through the shared port was closed without an upstream; client received %q", i, e, back.String())
 						return
 					default:
